@@ -1,6 +1,7 @@
 package main
 
 import (
+	"encoding/hex"
 	"math/rand"
 	"strconv"
 	"strings"
@@ -466,3 +467,178 @@ func genSurplus(_ *rand.Rand, id string) *Case {
 }
 
 func init() { generators["surplus"] = genSurplus }
+
+// genBind (C08): Parse / Bind / Describe / Execute with generated parameter values, parameter
+// format codes and result format codes. Expectations (computed here from how the message
+// was built, independently of the library and of the Lean model):
+//   xx  = the parameters the statement function must see (format.hexvalue | format.~ for NULL)
+//   xtf = the format codes Describe(portal) must announce, xd = the fields of the DataRow,
+//   xt  = the parameter OIDs Describe(statement) must announce, xn = decoded scans.
+func genBind(r *rand.Rand, id string) *Case {
+	c := baseCase(id, "bind")
+	in := plainStartup("u")
+	// columns: int4 and text only (their encodings are trivial to predict here)
+	ncols := r.Intn(4)
+	colLetters := make([]byte, ncols)
+	vals := make([]string, ncols)
+	ivals := make([]int32, ncols)
+	svals := make([][]byte, ncols)
+	colspec := make([]string, ncols)
+	for i := range colLetters {
+		if r.Intn(2) == 0 {
+			colLetters[i] = 'i'
+			ivals[i] = int32(r.Uint32())
+			vals[i] = "i" + strconv.FormatInt(int64(ivals[i]), 10)
+		} else {
+			colLetters[i] = 't'
+			svals[i] = randBytes(r, r.Intn(5), false)
+			vals[i] = "t" + hex.EncodeToString(svals[i])
+		}
+		colspec[i] = string(colLetters[i])
+	}
+	// declared parameter OIDs
+	nOids := r.Intn(4)
+	oids := make([]string, nOids)
+	for i := range oids {
+		oids[i] = strconv.Itoa([]int{0, 23, 25, 16, 20, 1043, 17}[r.Intn(7)])
+	}
+	// parameters
+	np := r.Intn(5)
+	if r.Intn(40) == 0 {
+		np = 200 + r.Intn(100)
+	}
+	params := make([]bindParam, np)
+	kinds := make([]int, np) // 0 raw, 1 int4 text, 2 int4 binary, 3 text
+	pints := make([]int32, np)
+	for i := range params {
+		switch r.Intn(7) {
+		case 0:
+			params[i].null = true
+		case 1:
+			params[i].v = []byte{}
+		case 2:
+			params[i].v = []byte{0}
+		case 3:
+			pints[i] = int32(r.Uint32())
+			params[i].v = []byte(strconv.FormatInt(int64(pints[i]), 10))
+			kinds[i] = 1
+		case 4:
+			pints[i] = int32(r.Uint32())
+			params[i].v = be32(uint32(pints[i]))
+			kinds[i] = 2
+		default:
+			params[i].v = randBytes(r, r.Intn(12), false)
+			kinds[i] = 3
+		}
+	}
+	var pf []uint16
+	switch r.Intn(3) {
+	case 0:
+	case 1:
+		pf = []uint16{uint16(r.Intn(2))}
+	case 2:
+		pf = make([]uint16, np)
+		for i := range pf {
+			pf[i] = uint16(r.Intn(2))
+		}
+	}
+	pfmt := func(i int) uint16 {
+		switch len(pf) {
+		case 0:
+			return 0
+		case 1:
+			return pf[0]
+		}
+		return pf[i]
+	}
+	var rf []uint16
+	switch r.Intn(3) {
+	case 0:
+	case 1:
+		rf = []uint16{uint16(r.Intn(2))}
+	case 2:
+		rf = make([]uint16, ncols)
+		for i := range rf {
+			rf[i] = uint16(r.Intn(2))
+		}
+	}
+	rfmt := func(i int) uint16 {
+		switch len(rf) {
+		case 0:
+			return 0
+		case 1:
+			return rf[0]
+		}
+		return rf[i]
+	}
+	// scans: decode parameter k as int4 (23) or text (25) through the parameter's own decoder
+	var ops, xn []string
+	for k := 0; k < np && k < 4; k++ {
+		if params[k].null {
+			ops = append(ops, "s:25,"+strconv.Itoa(k))
+			xn = append(xn, hxs("s=n"))
+			continue
+		}
+		switch {
+		case kinds[k] == 1 && pfmt(k) == 0, kinds[k] == 2 && pfmt(k) == 1:
+			ops = append(ops, "s:23,"+strconv.Itoa(k))
+			xn = append(xn, hxs("s=i"+strconv.FormatInt(int64(pints[k]), 10)))
+		default:
+			ops = append(ops, "s:25,"+strconv.Itoa(k))
+			xn = append(xn, hxs("s=t"+hex.EncodeToString(params[k].v)))
+		}
+	}
+	ops = append(ops, "r:"+strings.Join(vals, ","), "c:"+hxs("OK"))
+	script := strings.Join(colspec, ",") + "/" + strings.Join(oids, ",") + "/" + strings.Join(ops, ";") + "/ok"
+	sname, pname := pick(r, namePool), pick(r, namePool)
+	in = append(in, msgParse(sname, script, nil)...)
+	in = append(in, msgDescribe('S', sname)...)
+	if r.Intn(2) == 0 {
+		// an earlier Bind of the same portal name (other parameters, other result formats): the
+		// later Bind replaces it completely
+		drf := make([]uint16, ncols)
+		for i := range drf {
+			drf[i] = uint16(1 - int(rfmt(i)))
+		}
+		dps := []bindParam{{v: []byte("decoy")}, {null: true}, {v: []byte{1, 2, 3}}}
+		in = append(in, msgBind(pname, sname, []uint16{1}, dps[:r.Intn(4)], drf)...)
+	}
+	in = append(in, msgBind(pname, sname, pf, params, rf)...)
+	in = append(in, msgDescribe('P', pname)...)
+	in = append(in, msgExecute(pname, 0)...)
+	in = append(in, msgSync()...)
+	c.In = in
+	c.Cuts = randCuts(r, len(in))
+	// expectations
+	xx := make([]string, np)
+	for i, p := range params {
+		if p.null {
+			xx[i] = strconv.Itoa(int(pfmt(i))) + ".~"
+		} else {
+			xx[i] = strconv.Itoa(int(pfmt(i))) + "." + hex.EncodeToString(p.v)
+		}
+	}
+	c.Extra["xx"] = "=" + strings.Join(xx, ",")
+	c.Extra["xt"] = "=" + strings.Join(oids, ",")
+	if ncols > 0 {
+		tf := make([]string, ncols)
+		xd := make([]string, ncols)
+		for i := 0; i < ncols; i++ {
+			tf[i] = strconv.Itoa(int(rfmt(i)))
+			switch {
+			case colLetters[i] == 'i' && rfmt(i) == 0:
+				xd[i] = hex.EncodeToString([]byte(strconv.FormatInt(int64(ivals[i]), 10)))
+			case colLetters[i] == 'i':
+				xd[i] = hex.EncodeToString(be32(uint32(ivals[i])))
+			default:
+				xd[i] = hex.EncodeToString(svals[i])
+			}
+		}
+		c.Extra["xtf"] = "=" + strings.Join(tf, ",")
+		c.Extra["xd"] = "=" + strings.Join(xd, ",")
+	}
+	c.Extra["xn"] = "=" + strings.Join(xn, ",")
+	return c
+}
+
+func init() { generators["bind"] = genBind }
